@@ -112,7 +112,7 @@ func c18Ctx(variant int) map[string]interface{} {
 		"nest": c18Spare(c18Spare(2, 1), c18Spare("d", "c"), map[string]interface{}{"q": c18Spare(1)}),
 		"st":   c18Struct{Name: "s", Items: c18Spare(2, 1), Tags: c18SpareStr("t2", "t1"), Meta: map[string]interface{}{"k": "v"}, Ptr: inner, priv: []int{1, 2}},
 		"pst":  &c18Struct{Name: "ps", Items: c18Spare("b", "a"), Tags: c18SpareStr("u2", "u1"), Meta: map[string]interface{}{"k": c18Spare(1)}, Ptr: inner},
-		"s": "hello world", "n": 5, "pn": inner,
+		"s":    "hello world", "n": 5, "pn": inner,
 	}
 }
 
